@@ -190,6 +190,38 @@ def run_rubik(shard, rep: Report) -> None:
         rep.count("is_solved_probes")
         if bool(isol(jnp.asarray(c))):
             viol("is_solved_rejects_non_goal", {"swap": [int(f1), int(i1), int(j1), int(f2), int(i2), int(j2)]})
+    # even sizes have no fixed centre stickers: turning every slice about one axis rotates the whole cube, which stays solved
+    # (each face a single colour) although it is not the array make_solved_cube returns. The rotated goals are built with the
+    # reference permutations, then (a) is_solved must accept them, (b) the real environment, started from the goal, must
+    # report solved (reward 1, LAST) on the move that completes the rotation - and not before.
+    if n % 2 == 0:
+        opp = {U: D, F: B, R: L}
+        inv_amt = {0: 1, 1: 0, 2: 2}
+        env0 = RubiksCube(generator=ScramblingGenerator(cube_size=n, num_scrambles_on_reset=0), time_limit=10 * n)
+        step0 = jax.jit(env0.step)
+        for f in (U, F, R):
+            for amt in (0, 1, 2):
+                word = [(f, d, amt) for d in range(nd)] + [(opp[f], d, inv_amt[amt]) for d in range(nd)][::-1]
+                c = solved.ravel().copy()
+                st0, _ = jax.jit(env0.reset)(jax.random.PRNGKey(0))
+                for i, mv in enumerate(word):
+                    c = c[refp[mv]]
+                    st0, ts0 = step0(st0, jnp.asarray(mv, jnp.int32))
+                    uniform = bool((c.reshape(6, -1).max(1) == c.reshape(6, -1).min(1)).all())
+                    rep.evaluated(1)
+                    rep.count("rotated_goal_steps")
+                    if not np.array_equal(np.asarray(st0.cube).ravel(), c):
+                        viol("env_step_equals_physical_turn", {"action": list(mv), "where": "whole-cube rotation"})
+                        break
+                    if bool(isol(jnp.asarray(c.reshape(6, n, n)))) != uniform:
+                        viol("is_solved_iff_faces_uniform", {"where": "whole-cube rotation", "face": f, "amount": amt, "moves_done": i + 1, "faces_uniform": uniform}, qualifier="rotated_goal")
+                    if float(ts0.reward) != float(uniform) or (int(np.asarray(ts0.step_type)) == 2) != uniform:
+                        viol("env_step_reward_and_last", {"where": "whole-cube rotation", "reward": float(ts0.reward), "solved": uniform, "step_type": int(np.asarray(ts0.step_type))}, qualifier="rotated_goal")
+                    if uniform:
+                        rep.count("rotated_goals_reached")
+                        if not np.array_equal(c.reshape(6, n, n), solved):
+                            rep.count("rotated_goals_other_orientation")
+                        break
     # env.step on real colours, generator replay, solving by the inverse word
     scr = 5 if n <= 3 else 3
     for (scrambles, tl) in ((scr, 30), (0, 3), (100, 200)):
@@ -447,7 +479,44 @@ def run_sliding_walks(shard, rep: Report) -> None:
                         if not np.array_equal(exp, goal):
                             viol("done_iff_goal", {"puzzle": exp.tolist()})
                         break
-    rep.env_count("SlidingTilePuzzle", "walk_configs", 7)
+    # "state-independent": the step counter is part of the state too. With small and with the default time limit every move
+    # up to, on, and after the step that reaches the limit must still be the physical swap, and opposite moves must still cancel
+    for g, L in ((2, 1), (3, 2), (3, 5), (4, 12), (5, 500)):
+        cid = f"g{g}L{L}"
+        env = SlidingTilePuzzle(RandomWalkGenerator(g, 30), time_limit=L)
+        reset, step = jax.jit(env.reset), jax.jit(env.step)
+
+        def viol(clause, detail):
+            rep.violation(name, cid, clause, detail, replay={"grid_size": g, "time_limit": L, **detail}, qualifier="near_time_limit")
+
+        opposite = {0: 2, 1: 3, 2: 0, 3: 1}
+        for ep in range(2 if tier == "quick" else 8):
+            key, kint = key_for(seed, sid + cid, ep)
+            st, ts = reset(key)
+            acts = []
+            for i in range(L + 3):
+                prev = np.asarray(st.puzzle)
+                legal_moves = [a for a in range(4) if ref_slide(prev, a)[1]]
+                # around the limit: a legal move followed by its opposite
+                if i >= L - 2 and acts and i % 2 == 1 and ref_slide(prev, opposite[acts[-1]])[1]:
+                    a = opposite[acts[-1]]
+                else:
+                    a = int(rng.choice(legal_moves)) if (legal_moves and rng.random() < 0.85) else int(rng.integers(0, 4))
+                acts.append(a)
+                st, ts = step(st, jnp.asarray(a, jnp.int32))
+                exp, _ = ref_slide(prev, a)
+                rep.evaluated(1)
+                rep.count("walk_transitions")
+                if i + 1 >= L:
+                    rep.count("moves_on_or_after_time_limit")
+                if not np.array_equal(np.asarray(st.puzzle), exp):
+                    viol("move_equals_blank_swap", {"puzzle": prev.tolist(), "action": a, "step": i + 1, "key": kint})
+                    break
+                e = np.asarray(st.empty_tile_position)
+                if np.asarray(st.puzzle)[e[0], e[1]] != 0:
+                    viol("blank_position_consistent", {"step": i + 1, "key": kint})
+                    break
+    rep.env_count("SlidingTilePuzzle", "walk_configs", 12)
 
 
 def run_shard(shard: Dict[str, Any], rep: Report) -> None:
